@@ -644,6 +644,80 @@ mod net {
                 }
             }
         }
+        // ---- frames the real clients put on the wire for the aligned call, captured by a raw peer: byte-identical to
+        // the builder's frame for the same query and slice, payload offset a multiple of the element alignment (the
+        // sync and async clients must pad for 48 + query length, whatever the query length is)
+        {
+            use std::io::{Read, Write};
+            let capture = |rep: &mut Report, who: &str, path: &str, n: usize, call: &dyn Fn(std::net::SocketAddr) -> Result<Vec<f64>, String>, xs: &[f64]| {
+                let l = match std::net::TcpListener::bind("127.0.0.1:0") {
+                    Ok(l) => l,
+                    Err(e) => return rep.inconclusive(format!("capture bind: {e}")),
+                };
+                let addr = l.local_addr().unwrap();
+                let rev: Vec<f64> = xs.iter().rev().cloned().collect();
+                let th = std::thread::spawn(move || -> Option<Vec<u8>> {
+                    let (mut s, _) = l.accept().ok()?;
+                    s.set_read_timeout(Some(std::time::Duration::from_secs(8))).ok();
+                    let mut hdr = [0u8; 48];
+                    s.read_exact(&mut hdr).ok()?;
+                    let h = crate::oracle::SpecHeader::decode(&hdr);
+                    if !h.consistent() || h.length > (64 << 20) {
+                        return Some(hdr.to_vec());
+                    }
+                    let mut rest = vec![0u8; (h.length - 48) as usize];
+                    s.read_exact(&mut rest).ok()?;
+                    let mut frame = hdr.to_vec();
+                    frame.extend_from_slice(&rest);
+                    let resp = Message::builder().id(h.id).query_bytes(rest[..h.query_length as usize].to_vec()).query_format(QueryFormat::JsonPointer).body_typed_slice(&rev).build();
+                    let _ = s.write_all(&resp.to_vec());
+                    Some(frame)
+                });
+                let got = call(addr);
+                let frame = th.join().ok().flatten();
+                rep.eval();
+                rep.distinct(&("capture", who, path.len() % 8, n.min(3)));
+                let Some(frame) = frame else {
+                    return rep.inconclusive(format!("capture: {who} sent no complete frame for {path}"));
+                };
+                let Some((h, ql, bl)) = crate::oracle::valid_parse(&frame, true) else {
+                    return rep.violation(format!("C08:client-frame-malformed:{who}"), format!("{who} {path}: captured bytes are not one frame"), json!({"client": who, "path": path}));
+                };
+                let want = Message::builder().id(h.id).query_str(path).query_format(QueryFormat::JsonPointer).body_aligned_typed_slice(xs).build();
+                let body = &frame[48 + ql..48 + ql + bl];
+                let payload_off = frame.len() - std::mem::size_of_val(xs);
+                if frame[48..48 + ql] != *path.as_bytes() || body != want.body.as_slice() || h.body_format != want.header.body_format {
+                    rep.violation(
+                        format!("C08:client-frame-differs-from-builder:{who}"),
+                        format!("{who} call_typed_slice_aligned({path:?}, {n} x f64): body on the wire {} differs from the builder's {} (query length {ql})", hex_trunc(body, 24), hex_trunc(&want.body, 24)),
+                        json!({"client": who, "path": path, "len": n}),
+                    );
+                } else if n > 0 && payload_off % 8 != 0 {
+                    rep.violation(format!("C08:client-frame-padding:{who}"), format!("{who} {path}: payload at frame offset {payload_off}, not a multiple of 8"), json!({"client": who, "path": path}));
+                } else {
+                    rep.count("client_frames_captured_identical_to_builder", 1);
+                }
+                let mut want_bits = bits(xs);
+                want_bits.reverse();
+                match got {
+                    Ok(v) if bits(&v) == want_bits => {}
+                    other => rep.violation(format!("C08:client-capture-result:{who}"), format!("{who} {path}: call returned {:?}", other.map(|v| v.len())), json!({"client": who, "path": path})),
+                }
+            };
+            let paths = ["/r", "/re", "/ref", "/ref4", "/ref/5", "/ref/f6", "/ref/f64", "/ref/f64x", "/a/much/longer/route/name/17", "/é"];
+            for (i, path) in paths.iter().enumerate() {
+                for n in [0usize, 1, 5] {
+                    let xs: Vec<f64> = (0..n).map(|k| f64::from_bits(0x7ff8_0000_0000_0001 + (i * 10 + k) as u64)).collect();
+                    let xs2 = xs.clone();
+                    let p2 = path.to_string();
+                    capture(&mut rep, "client", path, n, &|addr| Client::connect(addr).map_err(|e| e.to_string()).and_then(|c| c.call_typed_slice_aligned::<_, f64, f64>(&p2, &xs2).map_err(|e| e.to_string())), &xs);
+                    let xs3 = xs.clone();
+                    let p3 = path.to_string();
+                    let rt2 = &rt;
+                    capture(&mut rep, "async_client", path, n, &|addr| rt2.block_on(async { AsyncClient::connect(addr).await.map_err(|e| e.to_string())?.call_typed_slice_aligned::<_, f64, f64>(&p3, &xs3).await.map_err(|e| e.to_string()) }), &xs);
+                }
+            }
+        }
         let lg = log.lock().unwrap();
         rep.set("ref_route_invocations", json!(lg.iter().filter(|e| e.0 == "ref").count()));
         rep.set("ref_route_saw_8_aligned_slice", json!(lg.iter().filter(|e| e.0 == "ref" && e.2).count()));
